@@ -65,10 +65,14 @@ Request(t) ==
 ExpireAll == /\ \E t \in Tiles : UpToDate(t)
              /\ store' = [t \in Tiles |-> IF store[t].there THEN [store[t] EXCEPT !.stale = TRUE] ELSE store[t]]
              /\ reply' = [NoReply EXCEPT !.op = "expire"] /\ UNCHANGED <<up, nextver>>
+\* a tile is removed from the cache (clean-up, operator)
+Remove(t) == /\ store[t].there
+             /\ store' = [store EXCEPT ![t] = Absent]
+             /\ reply' = [NoReply EXCEPT !.op = "remove", !.t = t] /\ UNCHANGED <<up, nextver>>
 Fail == up /\ up' = FALSE /\ reply' = [NoReply EXCEPT !.op = "fail"] /\ UNCHANGED <<store, nextver>>
 Recover == ~up /\ up' = TRUE /\ reply' = [NoReply EXCEPT !.op = "recover"] /\ UNCHANGED <<store, nextver>>
 
-Next == (\E t \in Tiles : Request(t)) \/ ExpireAll \/ Fail \/ Recover
+Next == (\E t \in Tiles : Request(t) \/ Remove(t)) \/ ExpireAll \/ Fail \/ Recover
 Spec == Init /\ [][Next]_vars
 
 -----------------------------------------------------------------------------
